@@ -35,11 +35,12 @@ type Bounds struct {
 // Scenario is one closed system: Body builds fresh objects and spawns the threads of one
 // execution and returns the end-of-execution oracle.
 type Scenario struct {
-	Name       string
-	Opt        vrt.Options
-	Bounds     Bounds
-	DeadlockOK bool // parked application threads at the end are not a finding
-	Body       func(s *vrt.Sched) func() (outcome string, fs []Finding)
+	Name        string
+	Opt         vrt.Options
+	Bounds      Bounds
+	DeadlockOK  bool   // parked application threads at the end are not a finding
+	DeadlockSig string // if set, the signature under which a deadlock is reported (default: names of the parked threads)
+	Body        func(s *vrt.Sched) func() (outcome string, fs []Finding)
 }
 
 type Result struct {
@@ -71,7 +72,11 @@ func Exec(sc *Scenario, prefix []int, trace bool) *Result {
 		res.Findings = append(res.Findings, Finding{"step-bound (livelock candidate)", fmt.Sprintf("execution exceeded %d scheduling steps", s.Opt.MaxSteps)})
 	}
 	if s.Deadlock && !sc.DeadlockOK {
-		res.Findings = append(res.Findings, Finding{"deadlock: " + strings.Join(s.Blocked, ","), "application threads parked forever with nothing enabled: " + strings.Join(s.Blocked, ", ")})
+		sig := "deadlock: " + strings.Join(s.Blocked, ",")
+		if sc.DeadlockSig != "" {
+			sig = sc.DeadlockSig
+		}
+		res.Findings = append(res.Findings, Finding{sig, "application threads parked forever with nothing enabled: " + strings.Join(s.Blocked, ", ")})
 	}
 	for _, f := range s.Fail {
 		res.Findings = append(res.Findings, Finding{f.Sig, f.What})
